@@ -181,8 +181,13 @@ class Ctx:
 
     def minimize(self, case, binary, checks, nocopy, oracle):
         """greedy removal of operations while the disagreement persists"""
+        import time as _t
+        t_start = _t.time()
+
         def failing(c):
-            r = core.run_rust(binary, [c])[0]
+            if _t.time() - t_start > 40:
+                raise TimeoutError()
+            r = core.run_rust(binary, [c], timeout_ms=3000)[0]
             for l in c.levels:
                 m = core.run_model(self.driver, [c], l, checks, nocopy)[0]
                 if core.compare_case(c, r, m):
@@ -449,6 +454,39 @@ def check_C06(ctx):
     # bits consumed by a table read = bits consumed bit by bit (= len, by the phases above): every table index
     cases, oracle = table_sweep(ctx, 1)
     ctx.corr(cases, what="C06 consumed by table reads, every index", oracle=oracle)
+    # every way of asking for a length (the enum, ConstCode by name, FuncCodeLen) vs the bits the code's own
+    # method writes, for every published code (parameters up to 10)
+    vals = [0, 1, 2, 3, 4, 5, 6, 7, 8, 9, 10, 15, 16, 24, 25, 31, 32, 33, 34, 35, 43, 63, 64, 96, 97, 100, 127, 128, 255, 256, 1000, 1023, 1024, 4095, 65535, 65536]
+    vals += [rng.randrange(1 << 20) for _ in range(6)]
+    dcases = []
+    for E in (0, 1):
+        ops = []
+        for var in range(11):
+            for p_ in ([0] if var < 6 else range(0, 11)):
+                if var in (6, 8) and p_ == 0:
+                    continue
+                for v in vals:
+                    if var == 0 and v > 5000:
+                        continue
+                    if var == 10 and (v >> p_) > 5000:
+                        continue
+                    if var == 8 and v // p_ > 5000:
+                        continue
+                    ops.append([5, 1, var, p_, v])
+                    for dk in (0, 2, 6):
+                        ops.append([dk, 2, var, p_, v])
+        for i in range(0, len(ops), 160):
+            dcases.append(Case([[6, E], []] + ops[i:i + 160], "len-entry-points/E%d" % E, levels=(2,)))
+
+    def oracle_len(c, r):
+        wrote = None
+        for op, g in zip(c.groups[2:], r):
+            if op[0] == 5:
+                wrote = g[1] if g and g[0] == 0 else None
+            elif wrote is not None and g and g[0] == 0 and g[1] != wrote:
+                return "length asked through dispatcher kind %d is %d but the code's own write appended %d bits (variant %d param %d value %d)" % (op[0], g[1], wrote, op[2], op[3], op[4])
+        return None
+    ctx.corr(dcases, what="C06 length through every entry point", oracle=oracle_len)
 
 
 def table_sweep(ctx, reps):
@@ -998,6 +1036,11 @@ def check_C16(ctx):
         elif k == 2 and s:
             i = rng.randrange(len(s)); s = s[:i] + rng.choice("()-+x 0a9Z") + s[i + 1:]
         bad.append(s)
+    # parameter texts that are not numbers, terminated or not
+    for nm in names[6:]:
+        for body in ("3x", "7-", "5a", "2 ", "4,", "x", "3x4", "+", "+x", "12 3", "-", "3-", "9_", "1e3"):
+            for tail in ("", ")", "))", ") "):
+                bad.append(nm + "(" + body + tail)
     bad = [b for b in bad if all(ord(ch) < 128 for ch in b)]
     mops = [[1] + list(s.encode()) for s in bad]
     mcases = [Case([[5], []] + mops[i:i + 100], "malformed", levels=(2,)) for i in range(0, len(mops), 100)]
@@ -1115,6 +1158,9 @@ def check_C10(ctx):
         for op, g in zip(c.groups[2:], r):
             if op[1] == 0 and g and g[0] == 0 and g[1] != op[4]:
                 return "dispatcher kind %d read %d where the direct method wrote %d (code %d/%d)" % (op[0], g[1], op[4], op[2], op[3])
+            # every published code (parameters up to 10) is accepted by every dispatcher
+            if op[0] in (0, 2, 3, 4, 6) and op[3] <= 10 and not (op[2] in (6, 8) and op[3] == 0) and g and g[0] == 1:
+                return "dispatcher kind %d rejects the published code %d/%d (operation %d)" % (op[0], op[2], op[3], op[1])
         return None
     rust = ctx.corr(cases, what="C10 dispatch", oracle=oracle)
     # the property's own oracle on the implementation: every dispatcher writes the bytes / reports the
@@ -1208,6 +1254,9 @@ def check_C18(ctx):
             ops.append([0, var, v, 0])
             if v % 7 == 0:
                 ops.append([0, var, v, 1])
+            if v > (1 << 16) or v % 97 == 0:
+                # a sink that takes only a few bytes per call (std::io::Write allows short writes)
+                ops.append([0, var, v, rng.randrange(2), rng.choice([1, 2, 3, 5, 9])])
     cases = [Case([[4], []] + ops[i:i + 300], "vbyte-encode", levels=(2,)) for i in range(0, len(ops), 300)]
     rust = ctx.corr(cases, what="C18 encode")
     # the length function matches the encoded length (steps at 2^7, 2^7+2^14, ...)
@@ -1346,6 +1395,17 @@ def check_C13(ctx):
             else:
                 ops.append([4])
         cases.append(Case([[7, kind, W], init] + ops, "memw-random/kind%d/W%d" % (kind, W), levels=(2,)))
+    # seek targets at the far end of the u64 range: rejected (or, for the zero-extended reader, accepted and reported
+    # exactly); the position is queried, then the stream is brought back and used again
+    for kind in range(4):
+        for W in (8, 16, 64, 128):
+            for ln in (0, 1, 3, 8):
+                init = [rng.getrandbits(W) for _ in range(ln)]
+                for far in (1 << 31, 1 << 32, (1 << 63) - 1, 1 << 63, (1 << 63) + 1, (1 << 64) - 1 - ln, (1 << 64) - 2, (1 << 64) - 1, ln + 1, ln):
+                    ops = [[0], [2], [3, far], [2], [3, min(1, ln)], [2], [0], [2], [4]]
+                    if kind >= 2:
+                        ops += [[1, 5], [2], [3, far], [2], [4]]
+                    cases.append(Case([[7, kind, W], init] + ops, "memw-far-seek/kind%d/W%d" % (kind, W), levels=(2,)))
     ctx.corr(cases, what="C13 word streams")
 
 
@@ -1396,23 +1456,62 @@ def check_C11(ctx):
                 ops.append([2])
             pcases.append(Case([[8, W, 2], data] + ops, "adapter-pos/W%d" % W, levels=()))
 
+    # byte streams whose length is not a multiple of the word size: the tail cannot be read; seeking afterwards still
+    # addresses whole words, and a word written after a seek lands at that word
+    for W in (16, 32, 64, 128):
+        nb = W // 8
+        for _ in range(40 if ctx.tier == "quick" else 300):
+            nw = rng.randrange(1, 4)
+            data = [rng.randrange(256) for _ in range(nb * nw + rng.randrange(1, nb))]
+            ops = [[0]] * (nw + 1) + [[2]]
+            for _ in range(rng.randrange(1, 6)):
+                k = rng.choice([nw + 1, nw, rng.randrange(0, nw + 3)])
+                ops += [[3, k], rng.choice([[0], [1, rng.getrandbits(W)], [2]]), [2]]
+            pcases.append(Case([[8, W, 2], data] + [list(o) for o in ops], "adapter-pos-ragged/W%d" % W, levels=()))
+
     def oracle_pos(c, r):
-        # word_pos equals the number of words transferred since the last seek
+        # reference: a byte array with a cursor; read_exact / write_all of whole words; word_pos rounds up
         W = c.groups[0][1]
+        nb = W // 8
+        img = bytearray(c.groups[1])
         pos = 0
-        nwords = len(c.groups[1]) // (W // 8)
-        for op, g in zip(c.groups[2:], r):
-            if g[0] != 0:
-                return None      # the state of a std::io object after an error is unspecified
-            if op[0] == 0 and g[0] == 0:
-                pos += 1
-            elif op[0] == 1 and g[0] == 0:
-                pos += 1
-            elif op[0] == 3 and g[0] == 0:
-                pos = op[1]
+        known = True
+        for i, (op, g) in enumerate(zip(c.groups[2:], r)):
+            if not known and op[0] != 3:
+                if op[0] == 1:
+                    return None        # a write at an unknown position: nothing more can be predicted
+                continue
+            if op[0] == 0:
+                if pos + nb <= len(img):
+                    want = int.from_bytes(img[pos:pos + nb], "little")
+                    if g != [0, want]:
+                        return "op %d: read_word at byte %d gave %r, the stream holds %d there" % (i, pos, g, want)
+                    pos += nb
+                else:
+                    if not g or g[0] != 1:
+                        return "op %d: read_word past the last whole word gave %r" % (i, g)
+                    if pos > len(img):
+                        known = False      # where a failed read_exact leaves a cursor that stood beyond the end depends on std
+                    pos = len(img)
+            elif op[0] == 1:
+                if not g or g[0] != 0:
+                    return "op %d: write_word failed: %r" % (i, g)
+                if pos > len(img):
+                    img.extend(b"\0" * (pos - len(img)))
+                img[pos:pos + nb] = int(op[1]).to_bytes(nb, "little")
+                pos += nb
             elif op[0] == 2:
-                if g[0] != 0 or g[1] != pos:
-                    return "word_pos reported %r after %d words" % (g, pos)
+                want = (pos + nb - 1) // nb
+                if g != [0, want]:
+                    return "op %d: word_pos reported %r at byte %d (word %d)" % (i, g, pos, want)
+            else:
+                if not g or g[0] != 0:
+                    return "op %d: set_word_pos(%d) failed: %r" % (i, op[1], g)
+                pos = op[1] * nb
+                known = True
+        fin = r[-1] if r and r[-1] and r[-1][0] == 99 else None
+        if fin is not None and list(fin[1:]) != list(img):
+            return "final byte image differs from the reference: %r vs %r" % (list(fin[1:])[:40], list(img)[:40])
         return None
     ctx.corr(pcases, what="C11 word positions", oracle=oracle_pos, levels=[])
     # bit streams through the adapter (plain byte sink, and a STAGING sink that only hands bytes over when it is
@@ -1467,6 +1566,31 @@ def check_C15(ctx):
                     return "best_code reports code %r (total %d) with cost %d but the minimum tracked total is %d" % (key, tot[key], b[3], m)
         return None
     ctx.corr(cases, what="C15 statistics", oracle=oracle)
+    # writes through the wrapper into a sink that fills up: a write that failed wrote nothing and is not an observation
+    binary = ctx.harness("debug", ())
+    if binary:
+        fcs = []
+        for _ in range(40 if ctx.tier == "quick" else 400):
+            capw = rng.randrange(1, 4)
+            vals = [rng.choice([rng.randrange(10), rng.getrandbits(rng.randrange(1, 41)), (1 << 40) - 1]) for _ in range(rng.randrange(2, 30))]
+            fcs.append(Case([[13, capw], []] + [[0, v] for v in vals], "stats-failing-writes", levels=()))
+        fr = core.run_rust(binary, fcs)
+        seqs = []
+        for c, r in zip(fcs, fr):
+            okv = [op[1] for op, g in zip(c.groups[2:], r) if g == [0]]
+            seqs.append(Case([[9], []] + [[0, v] for v in okv] + [[4]], "stats-failing-writes-ref", levels=()))
+        sr = core.run_rust(binary, seqs)
+        ctx.v.count(fcs)
+        ctx.v.cov["evaluations"] += len(fcs)
+        for c, r, ref in zip(fcs, fr, sr):
+            nfail = sum(1 for g in r[:-2] if g == [1])
+            if len(r) < 2 or r[-2:] != ref[-2:]:
+                ctx.v.violation("statistics after %d failed and %d successful writes through the wrapper differ from observing the successful values only: %r vs %r"
+                                % (nfail, len(r) - 2 - nfail, r[-2][:8] if len(r) >= 2 else r, ref[-2][:8] if len(ref) >= 2 else ref),
+                                {"kind": "disagreement", "class_key": "stats-failing-writes", "case": c.line(), "levels": [],
+                                 "impl_result": ";".join(" ".join("%x" % x for x in g) for g in r)[:2000]}, True)
+                break
+            ctx.v.cov["traces_validated_against_impl"] += 1
     # permutation invariance + threads: the threaded run must equal the sequential model run
     tcases = []
     mcases = []
